@@ -182,6 +182,7 @@ func longStreamRoots() [][]int {
 
 // runStreams replays a program on a fresh pool; returns failure text/clause or the canonical key.
 func runStreams(family string, ops []sop, prog []step) (fail, clause, key string) {
+	lib.Beat(nil) // progress mark for the hang watchdog (every replay)
 	mk := coll.NewG
 	if family == "interface{}" {
 		mk = coll.NewI
@@ -470,6 +471,7 @@ func renderMapFull(m map[int]int) string {
 // Union of sets keep the values the family chose. Sets are compared by key, and by value where the
 // model is sure (values set through Set / the constructor).
 func runSets(family string, ops []mop, prog []step) (fail, clause, key string) {
+	lib.Beat(nil) // progress mark for the hang watchdog (every replay)
 	mk := coll.NewGSet
 	keysOnly = false
 	if family == "interface{}" {
